@@ -153,10 +153,13 @@ fn expand_struct_assertion(value_expr: &TokenStream, pattern: &PatternStruct) ->
         })
         .collect();
 
-    let rest_pattern = if rest {
-        quote! { , .. }
-    } else {
+    let rest_pattern = if !rest {
         quote! {}
+    } else if field_names.is_empty() {
+        // `Path { , .. }` is not valid Rust
+        quote! { .. }
+    } else {
+        quote! { , .. }
     };
 
     let field_assertions: Vec<_> = fields
